@@ -1,45 +1,119 @@
-"""C04 -- value-spec algebra: contracts on pyglove/core/typing/value_specs.py."""
+"""C04 -- value-spec algebra: contracts on pyglove/core/typing/value_specs.py.
+
+Acceptance predicates (`acc_*`) are written from the property statement, not
+from the code.  For every spec class the obligations are
+
+  validate     X._validate raises  <=>  not acc_body            (ties acc to code)
+  compatible   a.is_compatible(b) == True  =>  forall v. acc(b, v) => acc(a, v)
+  extend       c.extend(b) returns  =>  forall v. acc(c', v) => acc(b, v)
+               and b.is_compatible(c')          (real code re-run on post-state)
+  apply        acc(apply(v)), apply(apply(v)) == apply(v), spec unchanged
+
+Nested specs: the element spec is an abstract reference whose acceptance set
+`eacc(id, v)` and whose `is_compatible` are uninterpreted, constrained by the
+law being proved one level down (induction hypothesis, A-INDUCTION).
+"""
+import z3
 import pyglove as pg
 from pyglove.core.typing import value_specs as vs
+from pyglove.core.typing import class_schema as cs
 from pyvc.contracts import Contract, register, spec
-from pyvc.spec import implies, iff, forall_range, exists_range
+from pyvc.spec import implies, iff, forall_range, exists_range, ite
+from pyvc.values import SBool, SInt, SObj, SAny
+from pyvc import absobj
 
 M = 'pyglove.core.typing.value_specs'
+MV = pg.MISSING_VALUE
 
+COMMON_INLINE = (
+    f'{M}:ValueSpecBase.is_noneable', f'{M}:ValueSpecBase.frozen',
+    f'{M}:ValueSpecBase.default', f'{M}:ValueSpecBase.transform',
+    f'{M}:ValueSpecBase.value_type', f'{M}:ValueSpecBase.is_compatible',
+    f'{M}:ValueSpecBase._is_compatible', f'{M}:ValueSpecBase._extend',
+    f'{M}:ValueSpecBase._validate', f'{M}:ValueSpecBase._apply',
+    f'{M}:ValueSpecBase.type_resolved', f'{M}:ValueSpecBase.has_default',
+    f'{M}:Number.min_value', f'{M}:Number.max_value',
+    f'{M}:Number._is_compatible', f'{M}:Number._extend', f'{M}:Number._validate',
+    f'{M}:Enum.values', f'{M}:Enum._is_compatible', f'{M}:Enum.is_compatible',
+    f'{M}:Enum._validate',
+    f'{M}:List.min_size', f'{M}:List.max_size', f'{M}:List.element',
+    f'{M}:List._is_compatible', f'{M}:List._validate', f'{M}:List._extend',
+    f'{M}:Tuple.min_size', f'{M}:Tuple.max_size', f'{M}:Tuple.elements',
+    f'{M}:Tuple.fixed_length', f'{M}:Tuple.__len__', f'{M}:Tuple._is_compatible',
+    f'{M}:Tuple._extend',
+    f'{M}:Str._is_compatible', f'{M}:Str._extend', f'{M}:Str.regex',
+    'pyglove.core.typing.class_schema:Field.value',
+    'pyglove.core.typing.class_schema:Field.key',
+    'pyglove.core.typing.key_specs:ListKey.min_value',
+    'pyglove.core.typing.key_specs:ListKey.max_value',
+)
+
+
+# ---------------------------------------------------------------------------
+# Spec predicates (from the statement)
 
 @spec
 def acc_num(mn, mx, v):
-  """Acceptance predicate of a numeric spec (from the property statement)."""
   return (mn is None or v >= mn) and (mx is None or v <= mx)
 
 
-def _mk_number(sort, mn, mx):
+@spec
+def acc_len(mn, mx, n):
+  return n >= mn and (mx is None or n <= mx)
+
+
+@spec
+def acc_modifiers(noneable, v_is_none, body):
+  """None is accepted iff the spec is noneable; otherwise the body decides."""
+  return ite(v_is_none, noneable, body)
+
+
+# ---------------------------------------------------------------------------
+# Numbers
+
+def _mk_number(sort, mn, mx, noneable=False):
   cls = pg.typing.Int if sort == 'int' else pg.typing.Float
-  return cls(min_value=mn, max_value=mx)
+  if sort != 'int':
+    mn = None if mn is None else float(mn)
+    mx = None if mx is None else float(mx)
+  s = cls(min_value=mn, max_value=mx)
+  if noneable:
+    s = s.noneable()
+  return s
+
+
+def _val(sort, v):
+  return v if sort == 'int' or v is None else float(v)
 
 
 class _NumberBase(Contract):
   prop = 'C04'
   variants = ('int', 'real')
-  inline = (f'{M}:Number.min_value', f'{M}:Number.max_value')
+  inline = COMMON_INLINE
 
   def number(self, b, name):
+    vt = int if self.variant == 'int' else float
     return b.obj(vs.Number, name=name,
                  _min_value=b.opt_num(name + '_min', self.variant),
-                 _max_value=b.opt_num(name + '_max', self.variant))
-
-  def wf(self, o):
-    return implies(o._min_value is not None and o._max_value is not None,
-                   o._min_value <= o._max_value)
+                 _max_value=b.opt_num(name + '_max', self.variant),
+                 _is_noneable=b.bool(name + '_noneable'),
+                 _frozen=False, _transform=None, _value_type=vt,
+                 _default=MV)
 
   def mk(self, m, name):
-    return _mk_number(self.variant, m.opt(name + '_min'), m.opt(name + '_max'))
+    return _mk_number(self.variant, m.opt(name + '_min'), m.opt(name + '_max'),
+                      bool(m.get(name + '_noneable')))
+
+
+@spec
+def wf_num(o):
+  return (o._min_value is None or o._max_value is None
+          or o._min_value <= o._max_value)
 
 
 @register
 class NumberValidate(_NumberBase):
-  """_validate raises ValueError  <=>  not acc_num  (ties the spec predicate
-  to the code)."""
+  """_validate raises ValueError  <=>  not acc_num."""
   target = f'{M}:Number._validate'
   exc_class_out_of_range = ValueError
 
@@ -48,15 +122,498 @@ class NumberValidate(_NumberBase):
                 value=b.num('value', self.variant)), {}
 
   def requires(self, self_):
-    return True
+    return wf_num(self_)
 
   def exc_iff_out_of_range(self, self_, value):
     return not acc_num(self_._min_value, self_._max_value, value)
 
   def native(self, m):
     s = self.mk(m, 'self')
+    return s._validate, [pg.KeyPath(), _val(self.variant, m['value'])], {}
+
+  def native_env(self, m):
+    return dict(self=self.mk(m, 'self'), value=_val(self.variant, m['value']))
+
+
+@register
+class NumberIsCompatible(_NumberBase):
+  """is_compatible (template + Number hook): True => acceptance-set inclusion."""
+  target = f'{M}:ValueSpecBase.is_compatible'
+  name = 'Number.is_compatible'
+
+  def inputs(self, b):
+    v = b.opt('v', lambda n: b.num(n, self.variant))
+    return dict(self=self.number(b, 'self'), other=self.number(b, 'other')), dict(v=v)
+
+  def requires(self, self_, other):
+    return wf_num(self_) and wf_num(other)
+
+  def ensures_sound(self, self_, other, result, v):
+    acc_o = acc_modifiers(other._is_noneable, v is None,
+                          v is not None and acc_num(other._min_value, other._max_value, v))
+    acc_s = acc_modifiers(self_._is_noneable, v is None,
+                          v is not None and acc_num(self_._min_value, self_._max_value, v))
+    return implies(result, implies(acc_o, acc_s))
+
+  def native(self, m):
+    return self.mk(m, 'self').is_compatible, [self.mk(m, 'other')], {}
+
+  def native_env(self, m):
+    return dict(self=self.mk(m, 'self'), other=self.mk(m, 'other'),
+                v=_val(self.variant, m.opt('v')))
+
+
+@register
+class NumberExtend(_NumberBase):
+  """_extend: on return the new range is inside both the old range and the
+  base range, and base._is_compatible(self') holds; on TypeError nothing
+  changed."""
+  target = f'{M}:Number._extend'
+  raises = {TypeError: ('unchanged',)}
+
+  def inputs(self, b):
+    return dict(self=self.number(b, 'self'), base=self.number(b, 'base')), \
+        dict(v=b.num('v', self.variant))
+
+  def requires(self, self_, base):
+    return wf_num(self_) and wf_num(base)
+
+  def old(self, self_):
+    return dict(mn=self_._min_value, mx=self_._max_value)
+
+  def ensures_narrows(self, self_, base, old, v):
+    return implies(acc_num(self_._min_value, self_._max_value, v),
+                   acc_num(base._min_value, base._max_value, v)
+                   and acc_num(old['mn'], old['mx'], v))
+
+  def ensures_base_compatible(self, self_, base):
+    return vs.Number._is_compatible(base, self_)
+
+  def ensures_wellformed(self, self_):
+    return wf_num(self_)
+
+  def raises_unchanged(self, self_, old):
+    return self_._min_value is old['mn'] and self_._max_value is old['mx']
+
+  def native(self, m):
+    return self.mk(m, 'self')._extend, [self.mk(m, 'base')], {}
+
+  def replay(self, obligation, m):
+    s, base = self.mk(m, 'self'), self.mk(m, 'base')
+    old = (s.min_value, s.max_value)
+    v = _val(self.variant, m['v'])
+    try:
+      s._extend(base)
+    except TypeError:
+      ok = (s.min_value, s.max_value) == old
+      return dict(outcome='not-reproduced' if ok else 'reproduced',
+                  detail=f'TypeError; state {old} -> {(s.min_value, s.max_value)}')
+    def acc(sp, x):
+      try:
+        sp.apply(x)
+        return True
+      except (ValueError, TypeError):
+        return False
+    o = _mk_number(self.variant, old[0], old[1])
+    bad = acc(s, v) and not (acc(base, v) and acc(o, v))
+    bad = bad or not base.is_compatible(s)
+    return dict(outcome='reproduced' if bad else 'not-reproduced',
+                detail=f'self={o!r} base={base!r} after={s!r} v={v!r}')
+
+
+# ---------------------------------------------------------------------------
+# apply pipeline on a Number spec: result accepted, idempotent, spec unchanged
+
+@register
+class NumberApply(_NumberBase):
+  target = f'{M}:ValueSpecBase.apply'
+  name = 'Number.apply'
+  raises = {ValueError: ('rejected_only_if_not_accepted',),
+            TypeError: ()}
+  variants = ('int',)
+
+  def inputs(self, b):
+    s = self.number(b, 'self')
+    v = b.choice('v_kind', [None, b.num('v', self.variant)])
+    return dict(self=s, value=v, allow_partial=False, child_transform=None,
+                root_path=None), {}
+
+  def requires(self, self_):
+    return wf_num(self_)
+
+  def setup_policy(self, policy):
+    _common_policy(policy)
+
+  def old(self, self_):
+    return dict(mn=self_._min_value, mx=self_._max_value,
+                noneable=self_._is_noneable, frozen=self_._frozen,
+                default=self_._default)
+
+  def ensures_result_accepted(self, self_, value, result):
+    return acc_modifiers(self_._is_noneable, result is None,
+                         result is not None and acc_num(self_._min_value, self_._max_value, result))
+
+  def ensures_identity_on_accepted(self, self_, value, result):
+    return result is value or result == value
+
+  def ensures_idempotent(self, self_, value, result):
+    again = vs.ValueSpecBase.apply(self_, result)
+    return again is result or again == result
+
+  def ensures_spec_unchanged(self, self_, old):
+    return (self_._min_value is old['mn'] and self_._max_value is old['mx']
+            and self_._is_noneable is old['noneable']
+            and self_._frozen is old['frozen'] and self_._default is old['default'])
+
+  def raises_rejected_only_if_not_accepted(self, self_, value):
+    return not acc_modifiers(self_._is_noneable, value is None,
+                             value is not None and acc_num(self_._min_value, self_._max_value, value))
+
+  def native(self, m):
+    v = None if m.choices.get('v_kind', 0) == 0 else m['v']
+    return self.mk(m, 'self').apply, [v], {}
+
+  def native_env(self, m):
+    v = None if m.choices.get('v_kind', 0) == 0 else m['v']
+    return dict(self=self.mk(m, 'self'), value=v)
+
+
+def _common_policy(policy):
+  from pyglove.core.typing import inspect as pg_inspect
+  from pyvc import axioms
+
+  def is_instance(interp, args, kwargs, frame):
+    v, t = args
+    c = axioms.class_of(interp, interp.resolve(v))
+    if c is None:
+      return SBool(z3.Bool('is_instance?'))
+    return pg_inspect.is_subclass(c, t)
+  policy.handlers[id(pg_inspect.is_instance)] = is_instance
+
+  def keypath_new(interp, args, kwargs, frame):
+    return SAny('KeyPath')
+  policy.handlers[('new', pg.KeyPath)] = keypath_new
+
+
+# ---------------------------------------------------------------------------
+# Enum
+
+ENUM_INLINE = COMMON_INLINE
+
+
+class _EnumBase(Contract):
+  prop = 'C04'
+  inline = ENUM_INLINE
+
+  def enum(self, b, name):
+    return b.obj(vs.Enum, name=name, _values=b.seq(name + '_values'),
+                 _is_noneable=False, _frozen=False, _transform=None,
+                 _value_type=int, _default=MV)
+
+  def mk(self, m, name):
+    vals = m.seq(name + '_values')
+    if not vals:
+      return None
+    return pg.typing.Enum(vals[0], list(vals))
+
+
+@spec
+def acc_enum(values, v):
+  return v in values
+
+
+@register
+class EnumValidate(_EnumBase):
+  target = f'{M}:Enum._validate'
+  exc_class_not_member = ValueError
+
+  def inputs(self, b):
+    return dict(self=self.enum(b, 'self'), path=b.any('path'), value=b.int('value')), {}
+
+  def exc_iff_not_member(self, self_, value):
+    return not acc_enum(self_._values, value)
+
+  def native(self, m):
+    s = self.mk(m, 'self')
+    if s is None:
+      return None
     return s._validate, [pg.KeyPath(), m['value']], {}
 
+  def native_env(self, m):
+    return dict(self=self.mk(m, 'self'), value=m['value'])
 
-# NOTE: clause parameters are matched by name with the target's parameters;
-# `self` of the target is passed as `self_`.
+
+@register
+class EnumIsCompatible(_EnumBase):
+  """Enum.is_compatible (other not frozen): True => values(other) subset."""
+  target = f'{M}:Enum.is_compatible'
+
+  def inputs(self, b):
+    return dict(self=self.enum(b, 'self'), other=self.enum(b, 'other')), dict(v=b.int('v'))
+
+  def ensures_sound(self, self_, other, result, v):
+    return implies(result, implies(acc_enum(other._values, v), acc_enum(self_._values, v)))
+
+  def native(self, m):
+    s, o = self.mk(m, 'self'), self.mk(m, 'other')
+    if s is None or o is None:
+      return None
+    return s.is_compatible, [o], {}
+
+  def native_env(self, m):
+    return dict(self=self.mk(m, 'self'), other=self.mk(m, 'other'), v=m['v'])
+
+
+@register
+class EnumIsCompatibleFrozenOther(_EnumBase):
+  """Enum.is_compatible with a frozen `other` of any class: the only value a
+  frozen spec accepts is its default, so `default in self.values` suffices."""
+  target = f'{M}:Enum.is_compatible'
+  name = 'Enum.is_compatible/frozen-other'
+
+  def inputs(self, b):
+    other = b.obj(vs.Number, name='other', _frozen=True, _default=b.int('odefault'),
+                  _is_noneable=False, _min_value=None, _max_value=None,
+                  _value_type=int, _transform=None)
+    return dict(self=self.enum(b, 'self'), other=other), dict(v=b.int('v'))
+
+  def ensures_sound(self, self_, other, result, v):
+    return implies(result, implies(v == other._default, acc_enum(self_._values, v)))
+
+  def native(self, m):
+    s = self.mk(m, 'self')
+    if s is None:
+      return None
+    return s.is_compatible, [pg.typing.Int().freeze(m['odefault'])], {}
+
+  def native_env(self, m):
+    return dict(self=self.mk(m, 'self'), other=pg.typing.Int().freeze(m['odefault']), v=m['v'])
+
+
+# ---------------------------------------------------------------------------
+# abstract element specs (induction hypothesis)
+
+EACC = z3.Function('eacc', z3.IntSort(), z3.IntSort(), z3.BoolSort())      # spec id, value id
+ECOMPAT = z3.Function('ecompat', z3.IntSort(), z3.IntSort(), z3.BoolSort())  # self id, other id
+FVAL = z3.Function('field_value', z3.IntSort(), z3.IntSort())                # field id -> spec id
+
+
+def eacc(spec_obj, v):
+  """Native stand-in: acceptance by a real element spec."""
+  try:
+    spec_obj.apply(v)
+    return True
+  except (TypeError, ValueError, KeyError):
+    return False
+
+
+def _elem_lazy(obj, name):
+  """Lazy fields of abstract Field / ValueSpec references."""
+  if obj.cls is cs.Field and name == '_value':
+    return absobj.ref(vs.ValueSpecBase, FVAL(obj.ghost['id']), _elem_lazy)
+  return NotImplemented
+
+
+def _ih_policy(policy):
+  """IH: element.is_compatible(other) = ecompat(ids); ecompat => inclusion."""
+  def is_compat(interp, frame, args, kwargs):
+    a, o = args[0], args[1]
+    ia, io = absobj.ref_id(a), absobj.ref_id(o)
+    if ia is None or io is None:
+      return SAny('is_compatible()')
+    return SBool(ECOMPAT(ia, io))
+  policy.contracts[f'{M}:ValueSpecBase.is_compatible'] = is_compat
+  policy.contracts['pyglove.core.typing.class_schema:ValueSpec.is_compatible'] = is_compat
+
+  def eacc_h(interp, args, kwargs, frame):
+    s, v = args
+    return SBool(EACC(absobj.ref_id(s), interp.to_z3(v)))
+  policy.handlers[id(eacc)] = eacc_h
+  policy.handlers[('identical',)] = absobj.identical_handler
+
+
+def _assume_ih(b):
+  s, o, v = z3.Ints('ih_s ih_o ih_v')
+  b.path.assume(z3.ForAll([s, o, v], z3.Implies(z3.And(ECOMPAT(s, o), EACC(o, v)), EACC(s, v))),
+                check=False)
+
+
+# ---------------------------------------------------------------------------
+# List: size bounds + element IH.  A list value is a sequence of value ids.
+
+class _ListBase(Contract):
+  prop = 'C04'
+  inline = tuple(x for x in COMMON_INLINE if 'ValueSpecBase.is_compatible' not in x)
+
+  def lst(self, b, name):
+    key = b.obj(pg.typing.ListKey, name=name + '_key',
+                _min_value=b.int(name + '_min', lo=0), _max_value=b.opt_int(name + '_max'))
+    elem_value = absobj.ref(vs.ValueSpecBase, b.int(name + '_elem').z, _elem_lazy)
+    elem = b.obj(cs.Field, name=name + '_field', _key=key, _value=elem_value)
+    return b.obj(vs.List, name=name, _element=elem, _is_noneable=False, _frozen=False,
+                 _transform=None, _value_type=list, _default=MV)
+
+  def setup_policy(self, policy):
+    _ih_policy(policy)
+
+  def mk(self, m, name, elem=None):
+    return pg.typing.List(elem or pg.typing.Int(), min_size=m[name + '_min'],
+                          max_size=m.opt(name + '_max'))
+
+
+@spec
+def acc_list(spec, value):
+  key = spec._element._key
+  return acc_len(key._min_value, key._max_value, len(value)) and forall_range(
+      0, len(value), lambda i: eacc(spec._element._value, value[i]))
+
+
+@spec
+def wf_list(o):
+  key = o._element._key
+  return key._max_value is None or key._min_value <= key._max_value
+
+
+@register
+class ListValidate(_ListBase):
+  target = f'{M}:List._validate'
+  exc_class_bad_size = ValueError
+
+  def inputs(self, b):
+    return dict(self=self.lst(b, 'self'), path=b.any('path'), value=b.seq('value')), {}
+
+  def requires(self, self_):
+    return wf_list(self_)
+
+  def exc_iff_bad_size(self, self_, value):
+    key = self_._element._key
+    return not acc_len(key._min_value, key._max_value, len(value))
+
+  def native(self, m):
+    return self.mk(m, 'self')._validate, [pg.KeyPath(), list(m.seq('value'))], {}
+
+  def native_env(self, m):
+    return dict(self=self.mk(m, 'self'), value=list(m.seq('value')))
+
+
+@register
+class ListIsCompatibleMaxSize(_ListBase):
+  """List._is_compatible: True => every list accepted by other is accepted by
+  self -- the max-size and element part."""
+  target = f'{M}:List._is_compatible'
+  name = 'List._is_compatible'
+
+  def inputs(self, b):
+    _assume_ih(b)
+    return dict(self=self.lst(b, 'self'), other=self.lst(b, 'other')), dict(value=b.seq('value'))
+
+  def requires(self, self_, other):
+    return wf_list(self_) and wf_list(other)
+
+  def ensures_sound_max_size_and_elements(self, self_, other, result, value):
+    ks, ko = self_._element._key, other._element._key
+    acc_o = acc_list(other, value)
+    acc_s = (ks._max_value is None or len(value) <= ks._max_value) and forall_range(
+        0, len(value), lambda i: eacc(self_._element._value, value[i]))
+    return implies(result, implies(acc_o, acc_s))
+
+  def ensures_sound_min_size(self, self_, other, result, value):
+    ks = self_._element._key
+    return implies(result, implies(acc_list(other, value), len(value) >= ks._min_value))
+
+  def native(self, m):
+    return self.mk(m, 'self')._is_compatible, [self.mk(m, 'other')], {}
+
+  def replay(self, obligation, m):
+    s, o = self.mk(m, 'self'), self.mk(m, 'other')
+    r = s.is_compatible(o)
+    n = m.get('value.len') or 0
+    value = [0] * n
+    bad = r and eacc(o, value) and not eacc(s, value)
+    return dict(outcome='reproduced' if bad else 'not-reproduced',
+                detail=f'{s!r}.is_compatible({o!r}) == {r}; value={value!r} accepted by other: {eacc(o, value)}, by self: {eacc(s, value)}')
+
+
+# ---------------------------------------------------------------------------
+# Tuple: fixed / variable length, element IH
+
+class _TupleBase(Contract):
+  prop = 'C04'
+  inline = tuple(x for x in COMMON_INLINE if 'ValueSpecBase.is_compatible' not in x)
+
+  def tup(self, b, name):
+    elems = absobj.ref_seq(b, name + '_elements', cs.Field, _elem_lazy)
+    b.path.assume(elems.len >= 1, check=False)
+    return b.obj(vs.Tuple, name=name, _elements=elems,
+                 _min_size=b.int(name + '_min', lo=0), _max_size=b.opt_int(name + '_max'),
+                 _is_noneable=False, _frozen=False, _transform=None,
+                 _value_type=tuple, _default=MV)
+
+  def setup_policy(self, policy):
+    _ih_policy(policy)
+
+
+@spec
+def tuple_fixed(t):
+  return t._max_size is not None and t._min_size == t._max_size
+
+
+@spec
+def wf_tuple(t):
+  """Representation invariant established by Tuple.__init__."""
+  return ite(tuple_fixed(t), len(t._elements) == t._min_size,
+             len(t._elements) == 1 and (t._max_size is None or t._min_size <= t._max_size))
+
+
+@spec
+def acc_tuple(t, value):
+  return ite(
+      tuple_fixed(t),
+      len(value) == len(t._elements) and forall_range(
+          0, len(value), lambda i: eacc(t._elements[i]._value, value[i])),
+      acc_len(t._min_size, t._max_size, len(value)) and forall_range(
+          0, len(value), lambda i: eacc(t._elements[0]._value, value[i])))
+
+
+@register
+class TupleIsCompatible(_TupleBase):
+  target = f'{M}:Tuple._is_compatible'
+
+  def inputs(self, b):
+    _assume_ih(b)
+    return dict(self=self.tup(b, 'self'), other=self.tup(b, 'other')), \
+        dict(value=b.seq('value', kind='tuple'))
+
+  def requires(self, self_, other):
+    return wf_tuple(self_) and wf_tuple(other)
+
+  def ensures_sound(self, self_, other, result, value):
+    return implies(result, implies(acc_tuple(other, value), acc_tuple(self_, value)))
+
+
+# ---------------------------------------------------------------------------
+# Str / Bool: no constraints beyond type (regex excluded by the statement)
+
+@register
+class StrIsCompatible(Contract):
+  prop = 'C04'
+  target = f'{M}:ValueSpecBase.is_compatible'
+  name = 'Str.is_compatible'
+  inline = COMMON_INLINE
+
+  def s(self, b, name):
+    return b.obj(vs.Str, name=name, _regex=None, _is_noneable=b.bool(name + '_noneable'),
+                 _frozen=False, _transform=None, _value_type=str, _default=MV)
+
+  def inputs(self, b):
+    return dict(self=self.s(b, 'self'), other=self.s(b, 'other')), dict(v_is_none=b.bool('v_is_none'))
+
+  def ensures_sound(self, self_, other, result, v_is_none):
+    return implies(result, implies(acc_modifiers(other._is_noneable, v_is_none, True),
+                                   acc_modifiers(self_._is_noneable, v_is_none, True)))
+
+  def native(self, m):
+    def mk(n):
+      s = pg.typing.Str()
+      return s.noneable() if m.get(n + '_noneable') else s
+    return mk('self').is_compatible, [mk('other')], {}
